@@ -149,7 +149,14 @@ static void build(LRU* c, umap_node* pool, const int* order, int cnt, const K* k
           __CPROVER_assume(keys[order[q]] != keys[s]);      /* a map holds each key once */
     }
   m->n = cnt;
-  m->total = total;                        /* representation invariant: total_size is the sum of the entries' sizes (see model) */
+  /* representation invariant: total_size is the sum of the entries' sizes.  Only an assumption on the symbolic input `total`
+   * here; that the reference total stays the sum is obligation h_model_total. */
+  size_t sum = 0;
+  for (int j = 0; j < NS; j++)
+    if (pool[j].used)
+      sum += sizes[j];
+  __CPROVER_assume(total == sum);
+  m->total = total;
   c->head = cnt ? &pool[order[0]].second : 0;
   c->tail = cnt ? &pool[order[cnt - 1]].second : 0;
   c->total_size = total;
@@ -210,6 +217,8 @@ static void check(const LRU* c, const umap_node* pool, const model* m)
 #define SHAPE_B {-1}
 #endif
 
+bool nondet_bool(void);
+
 void h_step(void)
 {
   const int order_a[NS + 1] = SHAPE_A;
@@ -222,7 +231,7 @@ void h_step(void)
   V in_v;
   size_t in_sz, in_total, in_total_b;
   ssize_t in_nsz;
-  bool in_touch;
+  bool in_touch = nondet_bool();
   LRU a, b;
   model ma, mb;
   verif_exc = 0;
@@ -251,10 +260,19 @@ void h_step(void)
   __CPROVER_assume(in_hit >= -1 && in_hit < CNT_A);
 #endif
 #endif
+#if OP == OP_change_size && defined(C12_MAP)
+  for (int tv = 0; tv < 2; tv++)               /* the same for the boolean argument: both values, never merged */
+    if (in_touch == (tv != 0))
+#endif
   for (int idx = -1; idx < NS - 1; idx++)
     if (idx < CNT_A && in_hit == idx) {
+#if OP == OP_change_size && defined(C12_MAP)
+      in_touch = (tv != 0);
+#endif
       if (idx >= 0) {
+#if OP != OP_evict_object                      /* evict_object chooses the key it erases itself: no hint, plain scan */
         g_hint = order_a[idx];
+#endif
         in_k = in_key[order_a[idx]];
       } else {
         g_hint = -1;
@@ -397,6 +415,10 @@ void h_step(void)
   verif_exc = 0;
   check(&a, pool_a, &ma);
 #endif
+      /* each case ends here: the symbolic states of the cases are never merged (merging them turns every pointer of the pool
+       * into a case split and multiplies the formula by ~100) */
+      VERIF_REACH();
+      return;
     }
   VERIF_REACH();
 }
@@ -412,28 +434,33 @@ static size_t m_sum(const model* m)
 }
 void h_model_total(void)
 {
-  model m;
-  int in_prim, in_idx;
+  int in_n, in_prim, in_idx;
   K in_k;
   V in_v;
   size_t in_sz;
-  __CPROVER_assume(m.n >= 0 && m.n <= NS - 1);
-  __CPROVER_assume(m.total == m_sum(&m));
-  __CPROVER_assume(in_idx >= 0 && in_idx < NS);
-  if (in_prim == 0)
-    m_push_front(&m, in_k, in_sz, in_v, 0);
-  else if (in_prim == 1)
-    m_clear(&m);
-  else {
-    __CPROVER_assume(in_idx < m.n);
-    if (in_prim == 2)
-      m_remove(&m, in_idx);
-    else if (in_prim == 3)
-      m_resize(&m, in_idx, in_sz);
-    else
-      m_to_front(&m, in_idx);
-  }
-  __CPROVER_assert(m.n >= 0 && m.n <= NS, "reference list stays within the bound");
-  __CPROVER_assert(m.total == m_sum(&m), "the reference total is the sum of the sizes of the reference entries");
-  VERIF_REACH();
+  __CPROVER_assume(in_n >= 0 && in_n <= NS - 1 && in_prim >= 0 && in_prim <= 4 && in_idx >= 0 && in_idx < NS - 1);
+  /* every (length, primitive, position) is its own unmerged case with constant indices: the obligation is a closed
+   * identity over at most NS sizes */
+  for (int n = 0; n < NS; n++)
+    for (int prim = 0; prim < 5; prim++)
+      for (int idx = 0; idx < NS - 1; idx++)
+        if (in_n == n && in_prim == prim && in_idx == idx && (prim < 2 ? idx == 0 : idx < n)) {
+          model m;
+          m.n = n;
+          __CPROVER_assume(m.total == m_sum(&m));
+          if (prim == 0)
+            m_push_front(&m, in_k, in_sz, in_v, 0);
+          else if (prim == 1)
+            m_clear(&m);
+          else if (prim == 2)
+            m_remove(&m, idx);
+          else if (prim == 3)
+            m_resize(&m, idx, in_sz);
+          else
+            m_to_front(&m, idx);
+          __CPROVER_assert(m.n >= 0 && m.n <= NS, "reference list stays within the bound");
+          __CPROVER_assert(m.total == m_sum(&m), "the reference total is the sum of the sizes of the reference entries");
+          VERIF_REACH();
+          return;
+        }
 }
